@@ -1069,7 +1069,17 @@ class ChannelFactory:
                 queue.put(item)
         else:
             try:
-                data = loads_internal(data, channel, strconfig)
+                if channel is None:
+                    # the Channel object is gone but its callback is still
+                    # registered: channels inside the item need the factory
+                    unserializer = Unserializer(BytesIO(data), self.gateway)
+                    (
+                        unserializer.py2str_as_py3str,
+                        unserializer.py3str_as_py2str,
+                    ) = strconfig
+                    data = unserializer.load()
+                else:
+                    data = loads_internal(data, channel, strconfig)
                 callback(data)  # even if channel may be already closed
             except Exception as exc:
                 self.gateway._trace("exception during callback: %s" % exc)
